@@ -2,7 +2,7 @@
 // Extracted code that says `String` / `Vec` / `vec![..]` resolves to these because they are defined in the
 // crate root of the generated file.  They keep CBMC away from the allocator (symbolic-size realloc / memcpy is
 // what makes std String code intractable).  Exceeding the capacity is a harness assertion failure, never silent.
-pub const SCAP: usize = 40;
+pub const SCAP: usize = 72;
 #[derive(Clone, Copy)]
 #[repr(C)]
 pub struct Vec<T: Copy> { pub buf: [T; SCAP], pub len: usize }
@@ -46,7 +46,11 @@ impl String {
     pub fn len(&self) -> usize { self.v.len }
     pub fn is_empty(&self) -> bool { self.v.len == 0 }
     pub fn as_bytes(&self) -> &[u8] { &self.v.buf[..self.v.len] }
+    pub fn truncate(&mut self, n: usize) { if n < self.v.len { self.v.len = n; } }
     pub fn as_str(&self) -> &str { unsafe { std::str::from_utf8_unchecked(&self.v.buf[..self.v.len]) } }
 }
 impl std::ops::Deref for String { type Target = str; fn deref(&self) -> &str { self.as_str() } }
 impl std::ops::AddAssign<&str> for String { fn add_assign(&mut self, s: &str) { self.push_str(s) } }
+impl std::fmt::Write for String { fn write_str(&mut self, s: &str) -> std::fmt::Result { self.push_str(s); Ok(()) } }
+impl From<std::string::String> for String { fn from(s: std::string::String) -> Self { let mut o = String::new(); o.push_str(&s); o } }
+impl From<&str> for String { fn from(s: &str) -> Self { let mut o = String::new(); o.push_str(s); o } }
